@@ -32,6 +32,7 @@ OBLIGATIONS = {
     "digest_ge_n": "a digest >= n was signed",
     "der_pad": "an r needed a DER sign pad byte (top bit set)",
     "short_r": "an r shorter than 32 bytes was produced on secp256k1",
+    "msg_ends_with_flag": "a plain-mode message whose last bytes already equal the sighash suffix",
     "flag_preimage_mode": "the flag byte was checked in preimage mode",
     "s_boundary": "a (d,z,k) whose un-negated s is n//2, n//2+1, 2^255 or a neighbour was signed on secp256k1",
     "same_draw_pairs": "two signatures were made with the same scripted draw (exempt from the nonce-reuse clause)",
@@ -421,6 +422,16 @@ def run_job(job):
                             acc.ob("flag_preimage_mode")
                         acc.check("bytes", {"curve": cv, "key": d.to_bytes(32, "big").hex(), "msg": m.hex(), "flag": flag,
                                             "preimage": pre, "draws": [(d * 7 + flag + mi) % C.n or 1]}, chk_bytes)
+        # plain-mode messages that ALREADY end with what sig() appends (the 4-byte little-endian flag, the 1-byte flag, the
+        # flag of another type): the suffix must be appended regardless
+        for d in (3, 5):
+            for flag in FLAGS:
+                for tail in (flag.to_bytes(4, "little"), bytes([flag]), (flag ^ 0x80).to_bytes(4, "little"), flag.to_bytes(4, "big"), b"\x00" * 4):
+                    acc.evaluations += 1
+                    acc.nontrivial += 1
+                    acc.ob("msg_ends_with_flag")
+                    acc.check("bytes", {"curve": cv, "key": d.to_bytes(32, "big").hex(), "msg": (b"tx" + tail).hex(), "flag": flag,
+                                        "preimage": False, "draws": [(d + flag) % C.n or 1]}, chk_bytes)
         # preimage mode without the explicit flag argument: flag byte must come from the preimage
         for flag in FLAGS:
             acc.evaluations += 1
